@@ -267,6 +267,28 @@ class C13(Sim):
             ev["f"] = r.below(len(raw.faces))
         return ev
 
+    def shrink_cfgs(self, cfg):
+        """fewer faces / cells (halves, quarters, eighths, single elements), unused vertices dropped; only worlds of the admitted kind
+        (oriented manifold regular cell complexes; conforming tetrahedral meshes) are proposed"""
+        from models.ref_surface import is_oriented_manifold
+        from models.ref_volume import is_conforming_tet_mesh
+        w = cfg["world"]
+        key = {"surface": "faces", "tets": "cells"}.get(w["kind"])
+        if key is None:
+            return
+        elems, pts = w[key], w["points"]
+        for lo, hi in surfgen.drop_chunks(len(elems)):
+            ne = elems[:lo] + elems[hi:]
+            if not ne:
+                continue
+            p2, e2, _ = surfgen.compact_with_map(pts, ne)
+            if key == "faces":
+                ok = is_oriented_manifold(len(p2), e2) and is_regular_complex(e2)
+            else:
+                ok = is_conforming_tet_mesh([[float(x) for x in p] for p in p2], e2)
+            if ok:
+                yield dict(cfg, world=dict(w, **{"points": p2, key: e2}))
+
     def applicable(self, ev):
         op = ev["op"]
         if self.kind == "polyline":
